@@ -215,7 +215,7 @@ def run_memory(case, res, stats):
     P["memory_design"] += 1
     config = case["config"]
     mem, wps, rps = c11.build(config)
-    domains = [DomainSpec(d["name"], edge=d["edge"]) for d in config["domains"]]
+    domains = [DomainSpec(d["name"], edge=d["edge"], async_reset=d.get("async", False)) for d in config["domains"]]
     run = ManualRun(mem, domains, sched_mode=case["sched"]["mode"], sched_seed=case["sched"]["seed"])
     top = run.top
     sig = {}
